@@ -354,6 +354,7 @@ func (r *runner) build(race bool) (string, error) {
 }
 
 type workerSpec struct {
+	cpu      string // -test.cpu (GOMAXPROCS of the worker); "" = 1
 	race     bool
 	from, to int
 	extraEnv []string
@@ -362,7 +363,11 @@ type workerSpec struct {
 }
 
 func (r *runner) runWorker(bin string, w workerSpec, timeout time.Duration) (*engine.WorkerResult, error) {
-	cmd := exec.Command(bin, "-test.run", "^TestSim$", "-test.count=1", "-test.timeout", (timeout + time.Minute).String(), "-test.cpu", "1")
+	cpu := w.cpu
+	if cpu == "" {
+		cpu = "1"
+	}
+	cmd := exec.Command(bin, "-test.run", "^TestSim$", "-test.count=1", "-test.timeout", (timeout + time.Minute).String(), "-test.cpu", cpu)
 	cmd.Dir = r.scratch
 	cmd.Env = append(append([]string{}, r.env...),
 		"SIM_OUT="+w.out, "SIM_FROM="+strconv.Itoa(w.from), "SIM_TO="+strconv.Itoa(w.to),
@@ -574,7 +579,7 @@ func check(id, tier, repo string, writeEvidence bool) int {
 
 	// Determinism sample: the first runs again, in a fresh process at another
 	// GOMAXPROCS; fingerprints must match those of the main batch.
-	det := r.fanoutOne(bin, 0, min(6, total), "det", []string{"GOMAXPROCS=1", "SIM_RECORD_FP_BELOW=6"}, timeout)
+	det := r.fanoutOne(bin, 0, min(6, total), "det", []string{"GOMAXPROCS=4", "SIM_RECORD_FP_BELOW=6"}, timeout)
 	detChecked := 0
 	if det != nil {
 		for k, v := range det.FPByRun {
@@ -693,7 +698,13 @@ func sumMap(m map[string]int64) int64 {
 }
 
 func (r *runner) fanoutOne(bin string, from, to int, tag string, extraEnv []string, timeout time.Duration) *engine.WorkerResult {
-	w := workerSpec{race: strings.Contains(bin, ".race."), from: from, to: to, extraEnv: extraEnv, out: filepath.Join(r.scratch, tag+".json"), log: filepath.Join(r.scratch, tag+".log")}
+	cpu := ""
+	for _, e := range extraEnv {
+		if strings.HasPrefix(e, "GOMAXPROCS=") {
+			cpu = strings.TrimPrefix(e, "GOMAXPROCS=")
+		}
+	}
+	w := workerSpec{cpu: cpu, race: strings.Contains(bin, ".race."), from: from, to: to, extraEnv: extraEnv, out: filepath.Join(r.scratch, tag+".json"), log: filepath.Join(r.scratch, tag+".log")}
 	res, err := r.runWorker(bin, w, timeout)
 	if err != nil {
 		fmt.Fprintln(os.Stderr, "simcheck:", err)
@@ -863,6 +874,7 @@ func selftest(ids []string) int {
 		ids = sortedProps()
 	}
 	bad := 0
+	nSelf := 300
 	for _, id := range ids {
 		r := newRunner(id, "quick", "/repo")
 		r.prepare()
@@ -873,8 +885,8 @@ func selftest(ids []string) int {
 			return 2
 		}
 		var fps []map[string]string
-		for _, p := range []string{"1", "4", "16"} {
-			res := r.fanoutOne(bin, 0, 40, "self"+p, []string{"GOMAXPROCS=" + p, "SIM_RECORD_FP_BELOW=40"}, 10*time.Minute)
+		for pi, p := range []string{"1", "4", "16", "1"} {
+			res := r.fanoutOne(bin, 0, nSelf, fmt.Sprintf("self%d-%s", pi, p), []string{"GOMAXPROCS=" + p, fmt.Sprintf("SIM_RECORD_FP_BELOW=%d", nSelf)}, 20*time.Minute)
 			if res == nil {
 				r.cleanup()
 				return 2
@@ -883,12 +895,12 @@ func selftest(ids []string) int {
 		}
 		mism := 0
 		for k, v := range fps[0] {
-			if fps[1][k] != v || fps[2][k] != v {
+			if fps[1][k] != v || fps[2][k] != v || fps[3][k] != v {
 				mism++
-				fmt.Printf("selftest %s: run %s differs: %s %s %s\n", id, k, v, fps[1][k], fps[2][k])
+				fmt.Printf("selftest %s: run %s differs: %s %s %s %s\n", id, k, v, fps[1][k], fps[2][k], fps[3][k])
 			}
 		}
-		fmt.Printf("selftest %s: %d seeds x 3 processes (GOMAXPROCS 1/4/16): %d mismatches\n", id, len(fps[0]), mism)
+		fmt.Printf("selftest %s: %d seeds x 4 fresh processes (GOMAXPROCS 1/4/16/1): %d mismatches\n", id, len(fps[0]), mism)
 		bad += mism
 		r.cleanup()
 	}
